@@ -61,9 +61,14 @@ func c14ReadAll(f *capgen.File, b []byte, api int) (recs []readRec, final error,
 					final = err
 					return
 				}
-				// a zero-copy read hands out reader-owned memory (data and ancillary slice) that is only valid until the next call
-				ci.AncillaryData = append([]interface{}{}, ci.AncillaryData...)
-				recs = append(recs, readRec{append([]byte{}, d...), ci, o})
+				// a zero-copy read hands out reader-owned memory (data and ancillary slice) that is only valid until the next
+				// call; what a copying read returns belongs to the caller and is kept as returned until every packet has
+				// been read - a copying call that hands out reader-owned memory shows up as an altered earlier packet
+				if api == apiZero {
+					ci.AncillaryData = append([]interface{}{}, ci.AncillaryData...)
+					d = append([]byte{}, d...)
+				}
+				recs = append(recs, readRec{d, ci, o})
 			}
 			return
 		}
@@ -85,7 +90,10 @@ func c14ReadAll(f *capgen.File, b []byte, api int) (recs []readRec, final error,
 				final = err
 				return
 			}
-			recs = append(recs, readRec{append([]byte{}, d...), ci, pcapgo.NgPacketOptions{}})
+			if api == apiZero {
+				d = append([]byte{}, d...)
+			}
+			recs = append(recs, readRec{d, ci, pcapgo.NgPacketOptions{}})
 		}
 	})
 	return
